@@ -29,7 +29,7 @@ ANCHOR_FUNCS = ["table:Table.__init__", "table:Table.__rshift__", "table:Table._
 REQUIRED_STRATA = {"recompute": 200, "structural": 200, "steps": 2000}
 
 OPS = [">>vector", ">>vector-wrong", ">>list", ">>dict", ">>dict-wrong", ">>table", ">>table-wrong", "<<row", "<<row-short", "<<row-long", "<<table",
-	"rowslice", "rowmask", "T.T", "attr", "attr-wrong", "ragged-ctor", "attr-iterable", "setitem-table", "<<table-dupnames", ">>table-dupnames"]
+	"rowslice", "rowmask", "T.T", "attr", "attr-wrong", "ragged-ctor", "attr-iterable", "setitem-table", "<<table-dupnames", ">>table-dupnames", "vector>>"]
 
 
 def mk(rng, r, c):
@@ -242,6 +242,36 @@ def run_structural(chk, spec):
 			if any(not M.eq_list(g, e) for g, e in zip(got, exp)):
 				chk.fail("table assignment writes the addressed cells", "structural/setitem-table/wrong-cells", f"{spec!r}: {short(got, 160)} vs {short(exp, 160)}")
 		fail_rect(chk, t, "after setitem-table", spec)
+	elif op == "vector>>":
+		# column stacking that starts from a vector or a plain sequence
+		if r == 0:
+			chk.skip("structural-empty-vector")
+			return
+		a = V.column(rng, "int", r, "none", small=True)
+		form = spec["key"][0]
+		# (two typesafe vectors of different kinds are refused by design, so the vector-with-vector form uses one kind)
+		b = V.column(rng, "int" if form in (0, 4) else "float", r, "none" if form in (0, 4) else rng.choice(["none", "low"]), small=True)
+		va = Vector(list(a), name="a")
+		if form == 0:
+			o, exp = call(lambda: va >> Vector(list(b), name="b")), [a, b]
+		elif form == 1:
+			o, exp = call(lambda: va >> list(b)), [a, b]
+		elif form == 2:
+			o, exp = call(lambda: va >> t), [a] + [list(x) for x in cols]
+		elif form == 3:
+			o, exp = call(lambda: list(b) >> va), [b, a]
+		elif form == 4:
+			o, exp = call(lambda: va >> Vector(list(b) + [1], name="b")), None      # unequal lengths: must not become a Table
+		else:
+			o, exp = call(lambda: va >> tuple(b)), [a, b]
+		if exp is None:
+			rejected(chk, spec, o, None, None, "vector >> longer vector")
+			return
+		if not o.ok:
+			chk.fail(">> stacks columns", f"structural/vector>>/raises/form{form}/{type(o.exc).__name__}", f"{spec!r} raised {o!r}")
+			return
+		expect_cells(chk, spec, o.value, [list(x) for x in exp], ">> stacks columns and leaves existing ones untouched", "wrong-cells")
+		return
 	elif op in ("<<table-dupnames", ">>table-dupnames"):
 		# tables whose column names repeat: << appends to every column BY POSITION, >> keeps every column
 		if c < 2 or r == 0:
@@ -312,6 +342,8 @@ def run(chk):
 					variants = [(kf, delta) for kf in range(4) for delta in (0, 1, -1, 2)]
 				elif op in ("<<table-dupnames", ">>table-dupnames"):
 					variants = [(a, b) for a in (0, 1) for b in (0, 1)]
+				elif op == "vector>>":
+					variants = [(f, 0) for f in range(6)]
 				for key in variants:
 					idx += 1
 					if not chk.mine(idx):
